@@ -60,11 +60,11 @@ Section Reach.
 
   (* ... hence, at a module-level import of module m in such a state, the translated _handleReExport is the model's *)
   Corollary handle_code_in_machine_states (Good : state -> Prop) s m mi exports orgname asname origin :
-    Inv p (sname p) (sparent p) Good s -> modinfo_of p m = Some mi ->
+    Inv p (sname p) (sparent p) Good s -> modinfo_of p m = Some mi -> is_inst s origin CModule = true ->
     handle_ir reexport_code s (m, 0, 0) exports orgname asname origin =
     Some (handle_reexport s (m, 0, 0) exports orgname asname origin).
   Proof.
-    intros HI Hm. apply handle_ir_eq; [|exact (Inv_wf_objs Good s HI)].
+    intros HI Hm Horg. apply handle_ir_eq; [|exact Horg|exact (Inv_wf_objs Good s HI)].
     pose proof (i_oa p _ _ _ s HI) as HA. pose proof (created_module p s m mi Hm) as CM.
     destruct (objs s (m, 0, 0)) as [mb|] eqn:Emb; [|exfalso; apply (oa_exists _ _ _ _ _ HA) in CM; congruence].
     assert (Hs : sobj p (m, 0, 0) = Some {| s_tag := if m_pkg mi then T_PACKAGE else T_MODULE; s_kind := if m_pkg mi then K_PACKAGE else K_MODULE;
